@@ -420,6 +420,9 @@ def adjoint_sources(ctx):
                   has(f'np.isnan({rn}[{i_}])', first),
                   'the NaN test does not look at this receiver\'s residual',
                   ctx.where(sm, loop[0]))
+    # ... and samples every component the adjoint source injects
+    from .c09 import skip_threshold
+    skip_threshold(ctx, 'C07.AS.source')
     # forward sampling uses the same absolute coordinates
     su = ctx.repo.mod('emg3d/surveys.py')
     rt = su.method('Survey', '_rec_types_coord')
@@ -497,3 +500,9 @@ def run(ctx):
     ctx.floor('C07.TA.case', 9)
     scatter_and_material_derivative(ctx)
     adjoint_sources(ctx)
+    # the misfit the gradient differentiates: half the weighted sum of the
+    # residual that _get_rfield back-propagates, computed from the current
+    # data (C13's path-wise lifting of Simulation.misfit)
+    from .c13 import misfit_formula
+    from ..core.report import Renamed
+    misfit_formula(Renamed(ctx, lambda r: 'C07.AS.misfit'))
